@@ -84,13 +84,13 @@ SnapOk(S, sn) ==
 Fits(S) == Visible(S.fx) = pre /\ (Strict => SnapOk(S, Ev.snap))
 Done(S0, S, mk) == Commit(S0, S, mk) /\ pre' = <<>> /\ E0 /\ UNCHANGED <<cfg, now>>
 HeadIs(m, a, b, c) == fmq # <<>> /\ Head(fmq).m = m /\ Head(fmq).a = a /\ Head(fmq).b = b /\ Head(fmq).c = c
-Free == {"calc", "pong", "pings", "query"}
+Free == {"calc", "pong", "pings", "stuck"}
 StepStrict ==
   /\ Strict /\ IsA("factory.step") /\ Adv /\ f.up = "run" /\ (Ev.kind = "post_stop") = f.stopreq
   /\ LET k == Ev.kind IN
      IF k \in {"sup_term", "sup_fail"} THEN
           IF fsq # <<>> /\ Head(fsq).inc = Ev.a1
-            THEN \E o \in Ords(f) : LET S == HandleSup(f, Ev.a1, o) IN Fits(S) /\ Done(f, S, "sup") /\ fsq' = Tail(fsq) /\ UNCHANGED fmq
+            THEN \E o \in Ords(f), rt \in BOOLEAN : LET S == HandleSupX(f, Ev.a1, o, rt) IN Fits(S) /\ Done(f, S, "sup") /\ fsq' = Tail(fsq) /\ UNCHANGED fmq
             ELSE FALSE
      ELSE IF k = "post_stop" THEN
           /\ pre = SelectSeq(DiscAllShutdown(f).fx, LAMBDA e : e.e = "disc") /\ SnapOk(Clean(DiscAllShutdown(f)), Ev.snap)
@@ -102,6 +102,7 @@ StepStrict ==
                [] k = "adjust" -> HeadIs(k, Ev.a1, 0, "")
                [] k = "drain" -> HeadIs(k, 0, 0, "")
                [] k = "update" -> HeadIs(k, Ev.a1, Ev.a2, Ev.s1)
+               [] k \in {"q_depth", "q_active", "q_cap"} -> HeadIs(k, 0, 0, "")
                [] OTHER -> FALSE
           /\ \E o \in Ords(f) : LET S == Handle(f, Head(fmq), o) IN Fits(S) /\ Done(f, S, k)
           /\ fmq' = Tail(fmq) /\ UNCHANGED fsq
@@ -109,7 +110,7 @@ StepStrict ==
 SilentStep ==
   /\ ~Strict /\ Live /\ l' = l /\ f.up = "run" /\ ~f.stopreq
   /\ \/ /\ fsq # <<>>
-        /\ \E o \in Ords(f) : LET S == HandleSup(f, Head(fsq).inc, o) IN Fits(S) /\ Done(f, S, "sup")
+        /\ \E o \in Ords(f), rt \in BOOLEAN : LET S == HandleSupX(f, Head(fsq).inc, o, rt) IN Fits(S) /\ Done(f, S, "sup")
         /\ fsq' = Tail(fsq) /\ UNCHANGED fmq
      \/ /\ fmq # <<>>
         /\ \E o \in Ords(f) : LET S == Handle(f, Head(fmq), o) IN Fits(S) /\ Done(f, S, Head(fmq).m)
@@ -135,6 +136,11 @@ TPost(m) == /\ Adv /\ KeepPre /\ E0 /\ fmq' = (IF Sent THEN Append(fmq, m) ELSE 
 Client == \/ IsA("obs.adjust") /\ TPost(Msg("adjust", Ev.n, 0, "", 0))
           \/ IsA("obs.drain") /\ TPost(Msg("drain", 0, 0, "", 0))
           \/ IsA("obs.update") /\ TPost(Msg("update", Ev.lim, Ev.wc, Ev.mode, 0))
+          \/ IsA("obs.q_sent") /\ TPost(Msg(Ev.kind, 0, 0, "", 0))
+          \/ /\ IsA("obs.q_reply") /\ Adv /\ KeepPre /\ E0
+             /\ IF Ev.d = 1 THEN /\ mon.ans # <<>> /\ Head(mon.ans) = Ev.v /\ mon' = [mon EXCEPT !.ans = Tail(@)]
+                                  /\ UNCHANGED <<cfg, f, fmq, fsq, act, jb, now>>
+                             ELSE UNCHANGED vars
           \/ /\ IsA("obs.reply") /\ Adv /\ KeepPre /\ E0 /\ UNCHANGED vars
              /\ Ev.id \in JobIds /\ jb[Ev.id].port
              /\ IF Ev.res = "accepted" THEN jb[Ev.id].acc ELSE IF Ev.res = "returned" THEN jb[Ev.id].ret ELSE ~Replied(jb[Ev.id])
